@@ -815,6 +815,12 @@ class Pass2(CompilePass):
         if not node.lvalue.type.is_coercible_to(node.rvalue.type):
             raise CompileError(EC.TYPE_MISMATCH, node=node)
 
+        if node.lvalue.type.is_user_defined or node.lvalue.type.is_array:
+            raise CompileError(
+                EC.TYPE_MISMATCH,
+                'Assigning a whole record or array is not supported',
+                node=node)
+
         if node.lvalue.base_var in node.parent_routine.local_consts or \
            node.lvalue.base_var in self.compilation.global_consts:
             raise CompileError(EC.DUPLICATE_DEFINITION, node=node)
